@@ -282,6 +282,11 @@ def generate(tier):
     for p1, p2 in (('first', 'last'), ('middle', 'last'), ('first', 'middle')):
         vs = insert_at(insert_at(base_variants('EnumString'), tup('D1', ['String'], [('default',)]), p1), named('D2', [('s', 'String')], [('default',)]), p2)
         cs.add('EnumString', cs.enum('EnumString', vs), 'R5-two-defaults', 'reject')
+    for p1, p2 in (('first', 'last'), ('middle', 'last'), ('first', 'middle')):
+        vs = insert_at(insert_at(base_variants('EnumString'), named('D1', [('s', 'String')], [('default',)]), p1), tup('D2', ['String'], [('default',)]), p2)
+        cs.add('EnumString', cs.enum('EnumString', vs), 'R5-two-defaults-named-first', 'reject')
+        vs = insert_at(insert_at(base_variants('EnumString'), named('D1', [('s', 'String')], [('default',)]), p1), named('D2', [('t', 'String')], [('default',)]), p2)
+        cs.add('EnumString', cs.enum('EnumString', vs), 'R5-two-defaults-both-named', 'reject')
     vs = insert_at(insert_at(base_variants('EnumString'), tup('D1', ['String'], [('default',)]), 'first'), tup('D2', ['String'], [('default',), ('disabled',)]), 'last')
     cs.add('EnumString', cs.enum('EnumString', vs), 'control-second-default-disabled', 'accept')
     # R6 default / transparent on a variant without exactly one field
@@ -308,6 +313,12 @@ def generate(tier):
     for lit in ('{0}', '{x}', 'a{}b', 'pre {name:>4}', '{{{0}}}'):
         for pos in positions:
             cs.add('Display', cs.enum('Display', insert_at(base_variants('Display'), unit('Bad', [('to_string', lit)]), pos)), 'R7-unit-placeholder', 'reject')
+    for pos in positions:
+        # the placeholder may come from serialize or from the enum-level prefix, not only from to_string
+        cs.add('Display', cs.enum('Display', insert_at(base_variants('Display'), unit('Bad', [('serialize', 'dot at {x}')]), pos)), 'R7-unit-placeholder-serialize', 'reject')
+        cs.add('Display', cs.enum('Display', insert_at(base_variants('Display'), unit('Bad', [('serialize', 's'), ('serialize', 'longer {0}')]), pos)), 'R7-unit-placeholder-serialize', 'reject')
+    cs.add('Display', cs.enum('Display', [unit('Alpha'), unit('Beta')], eattrs=[[('prefix', '{p}')]]), 'R7-unit-placeholder-prefix', 'reject')
+    cs.add('Display', cs.enum('Display', [unit('Alpha', [('to_string', 'a')]), unit('Beta')], eattrs=[[('prefix', 'pre{0}-')]]), 'R7-unit-placeholder-prefix', 'reject')
     for lit in ('{}', 'a {} b', '{:>4}'):
         cs.add('Display', cs.enum('Display', insert_at(base_variants('Display'), tup('Bad', ['u8'], [('to_string', lit)]), 'middle')), 'R7-empty-placeholder', None)
     for lit in ('{{escaped}}', 'plain', '}}{{'):
